@@ -1111,6 +1111,7 @@ theorem inv_step {c : Cfg} {s : State} (hi : Inv c s) (hl : c.legacy = false) (h
       intro e
       exact this ⟨a, ha, by simp [e]⟩
   | restart => exact hi
+  | limit l => exact hi
 
 theorem inv_run {c : Cfg} (hl : c.legacy = false) (hr : c.racy = false) (ops : List Op) :
     ∀ s, Inv c s → Inv c (run c s ops) := by
